@@ -108,6 +108,8 @@ INLINE = [
     # (key, class header regex in filters.h, method signature regex inside the class)
     ("sort_posts::flush", r"class\s+sort_posts\s*:\s*public\s+item_handler<post_t>\s*\{", r"virtual\s+void\s+flush\(\)\s*\{"),
     ("sort_posts::operator()", r"class\s+sort_posts\s*:\s*public\s+item_handler<post_t>\s*\{", r"virtual\s+void\s+operator\(\)\(post_t& post\)\s*\{"),
+    ("sort_xacts::flush", r"class\s+sort_xacts\s*:\s*public\s+item_handler<post_t>\s*\{", r"virtual\s+void\s+flush\(\)\s*\{"),
+    ("sort_xacts::operator()", r"class\s+sort_xacts\s*:\s*public\s+item_handler<post_t>\s*\{", r"virtual\s+void\s+operator\(\)\(post_t& post\)\s*\{"),
     ("collapse_posts::flush", r"class\s+collapse_posts\s*:\s*public\s+item_handler<post_t>\s*\{", r"virtual\s+void\s+flush\(\)\s*\{"),
     ("subtotal_posts::flush", r"class\s+subtotal_posts\s*:\s*public\s+item_handler<post_t>\s*\{", r"virtual\s+void\s+flush\(\)\s*\{"),
     ("day_of_week_posts::operator()", r"class\s+day_of_week_posts\s*:\s*public\s+subtotal_posts\s*\{", r"virtual\s+void\s+operator\(\)\(post_t& post\)\s*\{"),
@@ -140,6 +142,34 @@ def less_than_cells():
     for lab in ("DATE", "STRING"):
         need(lab in oc, "value.cc is_less_than: no case " + lab)
         out.append(("value_t::is_less_than:" + lab, norm_ws(oc[lab])))
+    return out
+
+
+def totals_order():
+    """comparator of collapse_posts' totals map: which way are two account names compared?"""
+    fh = strip_comments(src("filters.h"))
+    cls = function_body(fh, r"class\s+collapse_posts\s*:\s*public\s+item_handler<post_t>\s*\{")
+    m = re.search(r"typedef\s+std::map<account_t \*,\s*value_t,\s*(\w+)>\s+totals_map\s*;", cls)
+    need(m, "filters.h collapse_posts: totals_map is not a std::map<account_t *, value_t, COMPARATOR>")
+    name = m.group(1)
+    body = function_body(cls, r"struct\s+" + name + r"\s*\{")
+    m = re.search(r"bool\s+operator\(\)\(const account_t \* left,\s*const account_t \* right\) const\s*\{\s*"
+                  r"return\s+left->fullname\(\)\s*(<=|>=|<|>)\s*right->fullname\(\)\s*;\s*\}", body)
+    need(m, "filters.h collapse_posts::%s: expected `return left->fullname() ? right->fullname();`" % name)
+    return CMP[m.group(1)]
+
+
+def option_wiring():
+    """report.h: how --sort, --sort-all and --sort-xacts set each other (normalised text of the three OPTION_ blocks)"""
+    rh = strip_comments(src("report.h"))
+    out = []
+    for opt in ("sort_", "sort_all_", "sort_xacts_"):
+        m = re.search(r"OPTION_\(report_t,\s*" + opt + r",\s*DO_\(str\)\s*\{(.*?)\}\);", rh, flags=re.S)
+        need(m, "report.h: OPTION_(report_t, %s, DO_(str) {...}) not found" % opt)
+        out.append(("report.h:option:" + opt, norm_ws(m.group(1))))
+    ch = strip_comments(src("chain.cc"))
+    body = function_body(ch, r"post_handler_ptr\s+chain_post_handlers\(post_handler_ptr base_handler,\s*report_t&\s+report,\s*bool\s+for_accounts_report\)\s*\{")
+    out.append(("chain.cc:chain_post_handlers", norm_ws(_strip_debug(body))))
     return out
 
 
@@ -230,12 +260,14 @@ def gen_regroup():
              "def totalsMapType : String := %s" % lean_str(totals_map),
              "def payeeMapType : String := %s" % lean_str(payee_map),
              "/-- filters.h day_of_week_posts::operator(): bucket index. -/",
-             "def dowIndex : String := %s" % lean_str(dow_index), "",
+             "def dowIndex : String := %s" % lean_str(dow_index),
+             "/-- filters.h collapse_posts: `left->fullname() ? right->fullname()` in the comparator of the totals map. -/",
+             "def totalsOrder : Cmp := .%s" % totals_order(), "",
              "/-- order in which chain_post_handlers stacks the handlers (data flows through them in reverse). -/",
              "def chainOrder : List String := " + lean_list([lean_str(n) for n in chain_order()]), "",
              "/-- normalised text (comments, DEBUG lines and whitespace removed) of the functions the model mirrors. -/",
              "def bodies : List (String × String) := ["]
-    lines.append(",\n".join("  (%s, %s)" % (lean_str(k), lean_str(v)) for k, v in bodies() + inline_bodies() + less_than_cells()))
+    lines.append(",\n".join("  (%s, %s)" % (lean_str(k), lean_str(v)) for k, v in bodies() + inline_bodies() + less_than_cells() + option_wiring()))
     lines += ["]", "", "end Ledger.Gen.Regroup"]
     return "\n".join(lines) + "\n"
 
